@@ -49,6 +49,7 @@ ULetter == {233, 252, 955, 20013}                       \* é ü λ 中 : letter
 Constit == ((33..126) \ (Term \cup {44})) \cup ULetter    \* may occur inside a symbol
 Alnum == Digit \cup Alpha \cup ULetter
 Known == WS \cup Term \cup Constit
+Hex == Digit \cup (65..70) \cup (97..102)
 NumCont == Digit \cup Alpha \cup {SLASH, DOT, PLUS}     \* continue a token that started with a digit
 RegexPlain == Alnum \cup {32, 44, COLON, SEMI, QT, AT, TILDE, BQ, US, 37, 38, 60, 61, 62, 33, SLASH, MINUS, LF, CR, 9}
 
@@ -311,9 +312,10 @@ Raw(s, ch, e) ==
          ELSE IF ch = BS THEN [s EXCEPT !.st[n].esc = TRUE, !.st[n].fv = TRUE]
          ELSE IF ch = DQ THEN Emit(IF top.fv THEN Maybe(below) ELSE below, [Form("regex", <<>>, <<>>) EXCEPT !.ex = FALSE], e)
          ELSE IF ch \in RegexPlain \cup ULetter THEN s ELSE [s EXCEPT !.st[n].fv = TRUE]
-    [] top.k = "bstr" ->
+    [] top.k = "bstr" ->      \* top.t: the hex digits a \x escape still swallows (whatever they are)
          IF ch > 127 \/ ch < 1 THEN SynW(s, "non-ascii-in-byte-string")
-         ELSE IF top.esc THEN [s EXCEPT !.st[n].esc = FALSE, !.st[n].fv = (top.fv \/ ch = 120)]
+         ELSE IF top.t # <<>> THEN [s EXCEPT !.st[n].t = Tail(@), !.st[n].fv = (top.fv \/ ch \notin Hex)]
+         ELSE IF top.esc THEN [s EXCEPT !.st[n].esc = FALSE, !.st[n].t = IF ch = 120 THEN <<1, 1>> ELSE <<>>]
          ELSE IF ch = BS THEN [s EXCEPT !.st[n].esc = TRUE]
          ELSE IF ch = DQ THEN Emit(IF top.fv THEN Maybe(below) ELSE below, [Form("bytes", <<>>, <<>>) EXCEPT !.ex = FALSE], e)
          ELSE s
@@ -412,7 +414,8 @@ Why(fr) == CASE fr.k \in {"quote", "deref", "unq", "unqs"} -> "quote-like-prefix
              [] fr.k = "tag" -> "tag"
              [] fr.k = "bstrws" -> "byte-string-tag"
              [] fr.k \in Colls -> "collection"
-             [] fr.k \in {"str", "regex", "bstr"} -> IF fr.esc \/ (fr.k = "str" /\ fr.fv) THEN "string-escape" ELSE "string"
+             [] fr.k \in {"str", "regex", "bstr"} -> IF fr.esc \/ (fr.k = "str" /\ fr.fv) \/ (fr.k = "bstr" /\ fr.t # <<>>)
+                                                         THEN "string-escape" ELSE "string"
              [] OTHER -> "free-prefix"
 Res(al, forms, free, why) == [al |-> al, forms |-> forms, free |-> free, why |-> why]
 (* free: ""       the forms are exactly `forms`                                                   *)
